@@ -484,6 +484,48 @@ def run(pid, tier, replay=None):
     B = 120
     for k in range(0, len(traces), B):
         judge(chk, traces[k:k + B], labels[k:k + B], consts)
+    if pid == "C13":
+        # ---- admission of a transaction on one thread while another thread replaces the chain state (PoolLock): design level, then
+        #      preemption-point exploration on real threads (A = add_transaction_to_pool stopped before every line of manager.py,
+        #      B = set_coinstate with a head that spends the transaction's input)
+        sk.apply_cfg(cfg)
+        rp_ = tracecheck.model("PoolLock", "Spec", {"LockScope": "whole"}, invariants=["I_C13_PoolValidAtHead"], workers=2, timeout=300)
+        tlc.require_clean(rp_, "PoolLock")
+        chk.add_tlc("PoolLock (admission vs. state replacement under the chain manager's lock, every interleaving)", rp_)
+        if rp_.violated:
+            return machinery_failure(pid, "PoolLock violates %s" % rp_.violated)
+        rn_ = tracecheck.model("PoolLock", "Spec", {"LockScope": "append"}, invariants=["I_C13_PoolValidAtHead"], workers=2, timeout=300)
+        chk.add_tlc("PoolLock necessity run: validation outside the lock (must leave an invalid pending transaction)", rn_, expect_violation="I_C13_PoolValidAtHead")
+        if not rn_.violated:
+            return machinery_failure(pid, "vacuity: PoolLock with the narrowed lock keeps the pool valid")
+        from harness import preempt
+        ptraces = []
+
+        def make_pool_race():
+            w_, g_, blocks_, txs_ = build_universe(cfg, keys)
+            run2 = node_drv.NodeRun(w_, g_, peers=["p"], tid=0)
+            run2.deliver_block("p", blocks_[1])
+            cm = run2.node.local.chain_manager
+            cs_new = cm.coinstate.add_block_no_validation(blocks_[2])       # a2 spends the output that transaction 1001 spends
+            tx_ = txs_[1001]
+            return {"a": lambda: cm.add_transaction_to_pool(tx_), "b": lambda: cm.set_coinstate(cs_new), "locks": [cm],
+                    "observe": lambda: {"pool_has_t": any(t.hash() == tx_.hash() for t in cm.transaction_pool),
+                                        "head_is_new": cm.coinstate.current_chain_hash == blocks_[2].hash()},
+                    "close": run2.close}
+        for (k_, n_, blocked, obs, errs) in preempt.explore(make_pool_race, ("skepticoin/networking/manager.py",)):
+            ptraces.append(dict(obs, id=len(ptraces) + 1, k=k_, of=n_, blocked=blocked, errors=errs))
+            chk.case(("pool_race", k_), nontrivial=True)
+        if len(ptraces) < 5:
+            return machinery_failure(pid, "only %d preemption points in add_transaction_to_pool" % len(ptraces))
+        pv, rpt = tracecheck.run("TracePoolLock", ptraces, {"LockScope": "whole"}, ids=[t["id"] for t in ptraces], workers=1, timeout=600)
+        chk.traces_validated += len(ptraces)
+        chk.states += rpt.distinct
+        chk.extra["pool_race_preemption_points"] = {"explored": len(ptraces), "where_the_second_thread_had_to_wait_for_the_lock": sum(1 for t in ptraces if t["blocked"])}
+        for t_id, (clause, line) in pv.items():
+            if clause != "ok":
+                t = ptraces[t_id - 1]
+                chk.violation(clause, {"state_replaced_before_line_stop": t["k"], "of": t["of"], "second_thread_waited_for_the_lock": t["blocked"],
+                                       "observed": {k2: t[k2] for k2 in ("pool_has_t", "head_is_new")}, "errors": t["errors"]}, {"clause": clause})
     if pid in ("C09", "C12"):
         # ---- the network thread's delivery handling interleaved with the miner's found-block handling, line by line (Handover)
         from checks import handover
